@@ -42,14 +42,15 @@ LEAK_OK_MIRI = "-Zmiri-ignore-leaks"
 ASAN_NOLEAK = "halt_on_error=1:abort_on_error=0:detect_leaks=0:exitcode=99:allocator_may_return_null=1"
 
 PLANS = {
-    "C01": [hist("bound", 10, 480000, 7500000), hist("evict", 2, 480000, 4500000), hist("extreme", 2, 320000, 3000000),
+    "C01": [hist("big", 1, 40000, 300000), hist("realloc", 1, 480000, 3000000), hist("bound", 10, 480000, 7500000), hist("evict", 2, 480000, 4500000), hist("extreme", 2, 320000, 3000000),
             hist("extreme", 2, 320000, 3000000, mode="wrap"), job("realheap", "native", 2, [], budget={"quick": 300000, "thorough": 5000000})],
-    "C02": [hist("bound", 8, 480000, 7500000), hist("mutate", 3, 480000, 4500000), hist("ledger", 1, 480000, 3000000), hist("extreme", 2, 320000, 3000000),
+    "C02": [hist("big", 1, 40000, 300000), hist("realloc", 1, 480000, 3000000), hist("bound", 8, 480000, 7500000), hist("mutate", 3, 480000, 4500000), hist("ledger", 1, 480000, 3000000), hist("extreme", 2, 320000, 3000000),
             hist("extreme", 2, 320000, 3000000, mode="wrap"), job("realheap", "native", 2, [], budget={"quick": 400000, "thorough": 6000000})],
-    "C03": [hist("evict", 14, 480000, 9000000), hist("mixed", 2, 480000, 4500000)],
-    "C04": [hist("map", 12, 480000, 9000000), hist("realloc", 2, 480000, 4500000), hist("mixed", 2, 480000, 4500000)],
-    "C05": [job("interleave", "native", 4, [], budget={"quick": 300000, "thorough": 5000000}), hist("order", 12, 480000, 9000000), hist("realloc", 2, 480000, 4500000), hist("mixed", 2, 480000, 4500000)],
-    "C06": [hist("ledger", 10, 480000, 6000000), hist("mixed", 2, 480000, 3000000),
+    "C03": [hist("big", 1, 40000, 300000), hist("realloc", 1, 480000, 3000000), hist("evict", 14, 480000, 9000000), hist("mixed", 2, 480000, 4500000)],
+    "C04": [hist("big", 1, 40000, 300000), hist("map", 12, 480000, 9000000), hist("realloc", 2, 480000, 4500000), hist("mixed", 2, 480000, 4500000)],
+    "C05": [hist("big", 1, 40000, 300000), job("interleave", "native", 4, [], budget={"quick": 300000, "thorough": 5000000}), hist("order", 12, 480000, 9000000), hist("realloc", 2, 480000, 4500000), hist("mixed", 2, 480000, 4500000)],
+    "C06": [job("typevar", "native", 2, [], budget={"quick": 1500000, "thorough": 30000000}), job("typevar", "asan", 1, [], budget={"quick": 300000, "thorough": 5000000}, reports_to=MEM),
+            job("typevar", "miri", 2, [], budget={"quick": 60, "thorough": 1500}, reports_to=MEM), hist("big", 1, 40000, 300000), hist("realloc", 1, 480000, 3000000), hist("ledger", 10, 480000, 6000000), hist("mixed", 2, 480000, 3000000),
             hist("ledger", 8, 100000, 2000000, mode="asan", reports_to=MEM),
             hist("ledger", 16, 300, 4000, mode="miri", reports_to=MEM, extra=["--bare", "1"]),
             enum_iter("native", 4, 5, False, tiers=("quick",)), enum_iter("native", 8, 8, False, tiers=("thorough",))],
@@ -60,11 +61,11 @@ PLANS = {
             enum_iter("asan", 4, 5, False, random=100, tiers=("quick",)), enum_iter("asan", 12, 8, False, random=2000, tiers=("thorough",)),
             enum_iter("miri", 16, 2, False, extra=2, bare=True, tiers=("quick",)), enum_iter("miri", 16, 4, False, extra=2, bare=True, tiers=("thorough",)),
             hist("order", 2, 480000, 3000000)],
-    "C13": [job("churn", "native", 4, [], budget={"quick": 1000000, "thorough": 25000000}, budget_arg="ops"), job("interleave", "native", 2, [], budget={"quick": 200000, "thorough": 3000000}), hist("capacity", 14, 480000, 7500000), hist("realloc", 2, 480000, 3000000)],
-    "C14": [job("interleave", "native", 2, [], budget={"quick": 200000, "thorough": 3000000}), hist("clone", 12, 480000, 7500000), hist("mixed", 2, 480000, 3000000),
+    "C13": [hist("big", 1, 40000, 300000), job("churn", "native", 4, [], budget={"quick": 1000000, "thorough": 25000000}, budget_arg="ops"), job("interleave", "native", 2, [], budget={"quick": 200000, "thorough": 3000000}), hist("capacity", 14, 480000, 7500000), hist("realloc", 2, 480000, 3000000)],
+    "C14": [hist("big", 1, 40000, 300000), hist("realloc", 1, 480000, 3000000), job("interleave", "native", 2, [], budget={"quick": 200000, "thorough": 3000000}), hist("clone", 12, 480000, 7500000), hist("mixed", 2, 480000, 3000000),
             hist("clone", 6, 100000, 2000000, mode="asan", reports_to=MEM),
             hist("clone", 16, 300, 4000, mode="miri", reports_to=MEM, extra=["--bare", "1"])],
-    "C15": [enum_retain("native", 8, 9, random=300, tiers=("quick",)), enum_retain("native", 16, 12, random=4000, tiers=("thorough",)),
+    "C15": [hist("big", 1, 40000, 300000), hist("realloc", 1, 480000, 3000000), enum_retain("native", 8, 9, random=300, tiers=("quick",)), enum_retain("native", 16, 12, random=4000, tiers=("thorough",)),
             enum_retain("miri", 16, 3, bare=True, tiers=("quick",)), enum_retain("miri", 16, 5, bare=True, tiers=("thorough",)),
             hist("retain", 6, 480000, 4500000)],
     "C16": [job("inject", "native", 12, [], budget={"quick": 40000, "thorough": 1500000}, budget_arg="cases", reports_to=MEM),
@@ -80,14 +81,14 @@ PLANS = {
             hist("mixed", 4, 200000, 3000000),
             job("sharedref_threads", "miri", 12, ["--threads", "3"], budget={"quick": 2, "thorough": 30}, budget_arg="states", reports_to=("C19",)),
             job("sharedref_threads", "tsan", 8, ["--threads", "4"], budget={"quick": 300, "thorough": 5000}, budget_arg="states", reports_to=("C19",), tiers=("thorough",))],
-    "C20": [job("hashscale", "native", 4, [], budget={"quick": 3000, "thorough": 100000}, budget_arg="rounds"), hist("hash", 12, 480000, 7500000), hist("realloc", 2, 480000, 3000000), hist("evict", 2, 480000, 3000000)],
+    "C20": [hist("big", 1, 40000, 300000), job("hashscale", "native", 4, [], budget={"quick": 3000, "thorough": 100000}, budget_arg="rounds"), hist("hash", 12, 480000, 7500000), hist("realloc", 2, 480000, 3000000), hist("evict", 2, 480000, 3000000)],
     "C08": [msjob("memsize", "debug0", 12, [], budget={"quick": 2000, "thorough": 60000}, budget_arg="rounds"),
             job("memsize_total", "debug0", 18, ["--case", "{shard}", "--thread", "main"], budget={"quick": 1000000, "thorough": 4000000}, budget_arg="n", verdict="exit", prop="C08", bin="lruverif_tot"),
             job("memsize_total", "debug0", 18, ["--case", "{shard}", "--thread", "small"], budget={"quick": 1000000, "thorough": 4000000}, budget_arg="n", verdict="exit", prop="C08", bin="lruverif_tot"),
             job("memsize_total", "native", 18, ["--case", "{shard}", "--thread", "small"], budget={"quick": 1000000, "thorough": 10000000}, budget_arg="n", verdict="exit", prop="C08", bin="lruverif_tot")],
     "C09": [msjob("memsize", "debug0", 12, [], budget={"quick": 5000, "thorough": 200000}, budget_arg="rounds")],
-    "C10": [hist("insert", 14, 480000, 9000000), hist("mixed", 2, 480000, 4500000)],
-    "C11": [hist("mutate", 14, 480000, 9000000), hist("mixed", 2, 480000, 4500000)],
+    "C10": [hist("big", 1, 40000, 300000), hist("realloc", 1, 480000, 3000000), hist("insert", 14, 480000, 9000000), hist("mixed", 2, 480000, 4500000)],
+    "C11": [hist("big", 1, 40000, 300000), hist("realloc", 1, 480000, 3000000), hist("mutate", 14, 480000, 9000000), hist("mixed", 2, 480000, 4500000)],
 }
 
 LEVELS = {p: "exploration" for p in ["C01", "C02", "C03", "C04", "C05", "C06", "C07", "C08", "C09", "C10", "C11", "C12", "C14", "C15", "C19", "C20"]}
@@ -100,7 +101,7 @@ FLOORS = {
     "C03": {"evaluations": {"quick": 300000, "thorough": 10000000}, "distinct": 200, "multi_evictions": 50, "replace_then_evict": 20, "grow_the_lru": 20, "exact_fit_evicts_nothing": 20},
     "C04": {"evaluations": {"quick": 300000, "thorough": 10000000}, "distinct": 300, "each:lookup_": 50, "reallocations": 1000, "max:const_hasher_max_len": 20},
     "C05": {"evaluations": {"quick": 300000, "thorough": 10000000}, "distinct": 100, "each:promote_": 5, "order_checked_after_realloc_len10": 100, "debug_compared": 100},
-    "C06": {"evaluations": {"quick": 300000, "thorough": 10000000}, "distinct": 100, "c12_dropped_after_prefix": 500},
+    "C06": {"evaluations": {"quick": 300000, "thorough": 10000000}, "distinct": 100, "c12_dropped_after_prefix": 500, "each:c06_typevar_": 500},
     "C07": {"evaluations": {"quick": 300000, "thorough": 10000000}, "distinct": 300, "reallocations": {"quick": 10000, "thorough": 300000}, "max:max_len": {"quick": 100, "thorough": 1000}},
     "C12": {"evaluations": {"quick": 20000, "thorough": 200000}, "distinct": 5000, "c12_past_exhaustion": 1000, "c12_dropped_after_prefix": 1000},
     "C13": {"evaluations": {"quick": 50000, "thorough": 1500000}, "distinct": 60, "c13_auto_growth": 500, "c13_shrunk": 500, "c13_alloc_failures_injected": 200, "c13_try_reserve_err_capacity": 200, "c13_with_capacity_inserts": 500, "c13_churn_ops": {"quick": 3000000, "thorough": 90000000}},
@@ -125,7 +126,7 @@ RULES = {
     "C03": "Histories that keep the cache full; for each event the set of entries that left is compared with the shortest LRU prefix computed (u128) from the pre-state's recorded sizes; evicted keys' drop order must be LRU order. distinct = (operation kind, #evictions class, exact-fit/one-over, target position, key present?, hasher).",
     "C04": "Histories over tiny key universes, all hashers incl. constant, owned and borrowed key forms, reallocation anywhere; every return value and every lookup of every id after every event is compared with unique-id map semantics computed from the pre-state; untouched keys must keep their (key uid, value uid). distinct = (operation kind, target position, present?, hasher, reallocated?, length class, key form).",
     "C05": "Histories with promotions at every position and reallocation in between; after each event the order of the survivors (hook walk, iter, rev, keys, values, peek_lru/mru, parsed Debug) must equal spec(pre-order, operation). distinct = (operation kind, target position, reallocated?, length class, promoting?, #departures class).",
-    "C06": "Identity-level drop ledger: every key/value object has a unique id; after every event 'objects alive == objects in the caches + objects handed back' and no id is ever dropped twice; histories end by drop, clear, drain, into_iter/into_keys/into_values consumed from either end for any number of steps; plus every next/next_back string on owning iterators for small lengths; the same workloads under AddressSanitizer+LeakSanitizer and Miri (leak check on). distinct = (operation kind, #drops class, #handed back, #caches, outcome).",
+    "C06": "Identity-level drop ledger: every key/value object has a unique id; after every event 'objects alive == objects in the caches + objects handed back' and no id is ever dropped twice; histories end by drop, clear, drain, into_iter/into_keys/into_values consumed from either end for any number of steps; plus every next/next_back string on owning iterators for small lengths; plus the same exactly-once ledger over type configurations that differ in drop glue (LruCache<TKey,u64>, <u32,TVal>, <TKey,&str>, <TKey,TVal>) with every way of ending; the same workloads under AddressSanitizer+LeakSanitizer and Miri (leak check on). distinct = (operation kind, #drops class, #handed back, #caches, outcome).",
     "C07": "Observation gate after every event: hook walk forward == reverse(backward), == len(), node set == occupied buckets, link symmetry (G1); iter/rev/keys/values/peek_lru/peek_mru == walk (G2); contains/peek/peek_entry of every id (both key forms) find exactly the walked node (G3); returned references point into the walked nodes. Reallocation-heavy histories natively, under ASan (caches to thousands of entries) and under Miri. distinct = (operation kind, length class, reallocated?, hasher, post length class).",
     "C12": "Exhaustive enumeration: for each of the 7 iterator kinds, every cache length 0..=N and EVERY string over {next, next_back} of length <= len+3 (calls past exhaustion and drop-after-prefix included), on caches whose list order differs from bucket order, followed by further use of the cache; plus random strings on lists up to 60. Yields compared with the spec computed from the observed pre-state; drain aftermath; ledger for unconsumed entries. distinct = (kind, length, #calls, #backs, call-string bits).",
     "C13": "Histories with capacity operations anywhere (arguments 0, small, len, capacity+-1, usize::MAX, usize::MAX-len), allocator refusal injected into try_reserve, automatic growth compared with the capacity a fresh with_capacity(2*len) table gets from the library itself, with_capacity(n) promise, growth bound tracked per history. distinct = (operation, rebuilt?, length class, argument class, outcome).",
